@@ -666,6 +666,15 @@ def run_check(prop, tier, seed, replay):
         broken += psites['broken']
         for b in psites['broken']:
             log('BROKEN OBLIGATION ' + b)
+    # impl inventory (fragment key "impl_inventory", docs/RS2V.md): code added BESIDE the tied functions (a shadowing inherent
+    # method, an override inside an existing impl block, a new Drop / Clone / comparison / crate-trait impl)
+    iinv = rs2v.check_impl_inventory(prop)
+    if iinv:
+        obligations += iinv['obligations']
+        discharged += iinv['obligations']
+        broken += iinv['broken']
+        for b in iinv['broken']:
+            log('BROKEN OBLIGATION ' + b)
     # source gates (fragment key "source_gates"): facts about the source text of the tree under test that a
     # theorem's reading relies on and no kernel regenerates (e.g. a derive list); a failing gate is a broken obligation
     sgates = check_source_gates(prop)
@@ -917,6 +926,7 @@ def run_check(prop, tier, seed, replay):
                       'broken': geneq['broken'], 'kernels_regenerated': sum(1 for k in gen_status if k['ok']),
                       'kernels_failed': geneq['kernels_failed']},
             'panic_sites': psites['summary'] if psites else None,
+            'impl_inventory': iinv['summary'] if iinv else None,
             'source_gates': sgates['gates'] if sgates else None,
             'checker_cmd': 'make -C coq ' + ' '.join(f[:-2] + '.vo' for f in prop['coq_files']) + ' && coqc work/Assumptions_%s.v' % pid,
             'trusted_base': trusted,
